@@ -17,6 +17,8 @@ Inductive seg :=
 | SBlockOpen (stmt : bytes) (body : list seg)   (* [stmt { body] with the closing brace left to the `else` that follows *)
 | SBlockCont (stmt : bytes) (body : list seg)   (* [} stmt { body], again left open: `else if` followed by another else *)
 | SBlockLast (stmt : bytes) (body : list seg)   (* [} stmt { body }]: the last link of an if / else chain *)
+| SStmt (stmt : bytes)                    (* a line of Go: `- x := f()` *)
+| SLine (stmt : bytes) (body : list seg)  (* a line of Go followed by nested content, without braces of its own: `- case 1:` *)
 | SChildren                               (* = @children : __children.Render(ctx, __buf) *)
 | SRender (expr : bytes) (block : option (list seg)).
                                           (* = @render expr : expr.Render(ctx, __buf), or with the nested content as children *)
@@ -99,6 +101,11 @@ Inductive denotes : nat -> mode -> mode -> bytes -> list seg -> Prop :=
 | d_render_block ind v expr body_code body (mb : bool) rest segs m' :
     denotes (S ind) false mb body_code body -> denotes ind false m' rest segs ->
     denotes ind false m' (render_block_code ind v expr body_code mb ++ rest) (SRender expr (Some body) :: segs)
+| d_stmt ind stmt rest segs m' : denotes ind false m' rest segs ->
+    denotes ind false m' ((tabs ind ++ stmt ++ [10]) ++ rest) (SStmt stmt :: segs)
+| d_line ind stmt body_code body (mb : bool) rest segs m' :
+    denotes (S ind) false mb body_code body -> denotes ind false m' rest segs ->
+    denotes ind false m' ((tabs ind ++ stmt ++ [10] ++ body_code ++ (if mb then close_text (Lo (S ind)) else [])) ++ rest) (SLine stmt body :: segs)
 | d_block ind stmt body_code body (mb : bool) rest segs m' :
     denotes (S ind) false mb body_code body -> denotes ind false m' rest segs ->
     denotes ind false m' (block_code ind stmt body_code mb ++ rest) (SBlock stmt body :: segs)
@@ -117,7 +124,7 @@ Proof.
   intro H1. revert m3 c2 s2.
   induction H1 as [ind m|ind p h rest segs m' Hr _ IH|ind rest segs m' _ IH|ind rest segs m' _ IH|ind v t rest segs m' _ IH
                   |ind t rest segs m' _ IH|ind v t rest segs m' _ IH|ind rest segs m' _ IH|ind expr rest segs m' _ IH
-                  |ind v expr bc body mb rest segs m' Hb _ _ IH|ind stmt bc body mb rest segs m' Hb _ _ IH
+                  |ind v expr bc body mb rest segs m' Hb _ _ IH|ind stmt rest segs m' _ IH|ind stmt bc body mb rest segs m' Hb _ _ IH|ind stmt bc body mb rest segs m' Hb _ _ IH
                   |ind stmt bc body mb rest segs m' Hb _ _ IH|ind stmt bc body mb rest segs m' Hb _ _ IH|ind stmt bc body mb rest segs m' Hb _ _ IH]; intros m3 c2 s2 H2; cbn [app].
   - exact H2.
   - rewrite <- app_assoc. apply d_lit; [exact Hr|apply IH; exact H2].
@@ -129,6 +136,8 @@ Proof.
   - rewrite <- app_assoc. apply d_children. apply IH; exact H2.
   - rewrite <- app_assoc. apply d_render. apply IH; exact H2.
   - rewrite <- app_assoc. apply d_render_block; [exact Hb|apply IH; exact H2].
+  - rewrite <- app_assoc. apply d_stmt. apply IH; exact H2.
+  - rewrite <- app_assoc. apply d_line; [exact Hb|apply IH; exact H2].
   - rewrite <- app_assoc. apply d_block; [exact Hb|apply IH; exact H2].
   - rewrite <- app_assoc. apply d_block_open; [exact Hb|apply IH; exact H2].
   - rewrite <- app_assoc. apply d_block_cont; [exact Hb|apply IH; exact H2].
@@ -339,7 +348,12 @@ Definition block_stmt (o : token) : Prop :=
 (** `- else` / `- else if` lines continue the block of the `-` line before them *)
 Definition is_else (n : node) : bool :=
   match n with Node (KSilent o _ _) _ => any_prefix c_elseStatements (t_lit o) | _ => false end.
-Definition is_block (n : node) : bool := match n with Node (KSilent _ _ _) _ => true | _ => false end.
+(** a `-` line that opens a block of its own: an opening statement with nested content *)
+Definition is_block (n : node) : bool :=
+  match n with
+  | Node (KSilent o _ _) (_ :: _) => any_prefix c_openingStatements (go_trim_space (t_lit o))
+  | _ => false
+  end.
 (** does the list start with an else line: the block before it is left open *)
 Definition ho (r : list node) : bool := match r with n :: _ => is_else n | [] => false end.
 (** an else line only directly after a `-` block *)
@@ -402,7 +416,14 @@ Fixpoint dyn_node (n : node) : Prop :=
     | KNewLine _ => True
     | KDoctype _ => True
     | KComment o _ => t_lit o <> [] /\ bytes_ok (t_lit o)
-    | KSilent o _ _ => block_stmt o /\ ch <> [] /\ kids_ok ch /\ all ch
+    | KSilent o _ _ =>
+      match ch with
+      | [] => any_prefix c_elseStatements (t_lit o) = false /\ has_prefix (lit "}") (t_lit o) = false       (* a Go line *)
+      | _ => (block_stmt o \/                                                                             (* a block *)
+              (any_prefix c_openingStatements (go_trim_space (t_lit o)) = false /\
+               any_prefix c_elseStatements (t_lit o) = false /\ has_prefix (lit "}") (t_lit o) = false))   (* `- case x:` *)
+             /\ kids_ok ch /\ all ch
+      end
     | KUnescape _ _ => Forall raw_child ch
     | KChildren _ => True
     | KRender _ _ => kids_ok ch /\ all ch
@@ -432,12 +453,18 @@ Fixpoint segs_of (nc fl : bool) (n : node) : list seg :=
     | KSilent o _ _ =>
       let stmt := go_trim_space (t_lit o) in
       let body := kids false ch in
-      [match nc, fl with
-       | false, false => SBlock stmt body
-       | false, true => SBlockOpen stmt body
-       | true, true => SBlockCont stmt body
-       | true, false => SBlockLast stmt body
-       end]
+      match ch with
+      | [] => [SStmt stmt]
+      | _ =>
+        if any_prefix c_openingStatements stmt then
+          [match nc, fl with
+           | false, false => SBlock stmt body
+           | false, true => SBlockOpen stmt body
+           | true, true => SBlockCont stmt body
+           | true, false => SBlockLast stmt body
+           end]
+        else [SLine stmt body]
+      end
     | KUnescape _ _ => List.concat (map raw_segs ch)
     | KChildren _ => [SChildren]
     | KRender o _ => [SRender (t_lit o) (match ch with [] => None | _ => Some (kids false ch) end)]
@@ -573,8 +600,15 @@ Proof.
     destruct (IH false false _ M) as (m2 & R2). exists m2. eapply Runu_trans; [split; [exact M|exact R]|exact R2].
 Qed.
 
+Lemma dyn_silent_raw o i c ch : dyn_node (Node (KSilent o i c) ch) -> has_prefix (lit "}") (t_lit o) = false.
+Proof.
+  cbn [dyn_node]. destruct ch as [|c0 ch0].
+  - intros [_ H]. exact H.
+  - intros [[(_ & _ & _ & H)|(_ & _ & H)] _]; exact H.
+Qed.
+
 Definition node_run_at (n : node) : Prop :=
-  dyn_node n -> forall ind sm r (m : bool) st, Forall dyn_node r ->
+  dyn_node n -> forall ind sm r (m : bool) st, Forall dyn_node r -> (ho r = true -> is_block n = true) ->
   MS ind (if is_else n then false else m) st ->
   exists m' : bool,
     Run ind (if is_else n then MP else mode_of_bool m) st (if is_block n && ho r then MP else mode_of_bool m')
@@ -587,7 +621,7 @@ Lemma list_run sm (l : list node) : Forall node_run_at l -> Forall dyn_node l ->
 Proof.
   induction 1 as [|c rest Hc _ IH]; intros Hs Hadj ind m st H; [exists m; apply Run_refl; exact H|].
   inversion Hs as [|? ? Hsc Hsr]; subst. destruct Hadj as [Hfl Hadj]. cbn [emit_list segs_list ho] in *.
-  destruct (Hc Hsc ind sm rest m st Hsr H) as (m1 & R1 & F1).
+  destruct (Hc Hsc ind sm rest m st Hsr Hfl H) as (m1 & R1 & F1).
   assert (Efl : is_block c && ho rest = ho rest) by (destruct (ho rest); [rewrite (Hfl eq_refl); reflexivity|apply Bool.andb_false_r]).
   rewrite Efl in *.
   destruct (emit_node sm c (hd_error rest) (is_else c) st) as [s1 f1]. cbn [fst snd] in *. subst f1.
@@ -604,7 +638,7 @@ Qed.
 
 Theorem dyn_node_runs n : node_run_at n.
 Proof.
-  induction n as [k ch IH] using node_ind2. intros Hs ind sm r m st Hr H.
+  induction n as [k ch IH] using node_ind2. intros Hs ind sm r m st Hr Hadj1 H.
   rewrite emit_node_unfold. cbn [dyn_node] in Hs. cbn [segs_of]. rewrite !segs_kids_eq.
   destruct k; try contradiction; cbn [is_else is_block andb] in *; unfold emit_node_body; cbv zeta.
   - (* doctype *)
@@ -661,72 +695,130 @@ Proof.
     exists m'. split; [|reflexivity]. split.
     + split; [exact E5|]. unfold set_unesc at 1. cbn [set_local snd]. rewrite L5. destruct m'; reflexivity.
     + exists code. split; [|exact D5]. unfold set_unesc at 1. rewrite txt_set_local, T5. unfold set_unesc. rewrite txt_set_local. reflexivity.
-  - (* a `-` block, alone or as a link of an if / else chain *)
-    destruct Hs as [(Hop & Hsuf & Hpre & Hraw) [Hne [Hko Hch]]]. apply dyn_all_eq in Hch.
+  - (* a `-` line *)
+    destruct ch as [|c0 ch0].
+    + (* a line of Go *)
+      destruct Hs as [Helse Hraw]. cbn [is_block andb] in *. rewrite Helse in *. cbn [andb negb fst snd].
+      set (code := go_trim_space (t_lit origin)) in *.
+      destruct (tw_wri_run ind m [] st H) as [M1 T1]. set (st1 := tw_wri [] st) in *.
+      assert (Q1 : quiet st1) by (destruct M1 as [A B]; split; [exact A|rewrite B; reflexivity]).
+      destruct (tw_write_add_quiet sm code origin st1 Q1) as [Q3 L3]. pose proof (tw_write_add_txt sm code origin st1 Q1) as T3.
+      set (st3 := tw_write_add sm code origin st1) in *.
+      assert (Hend : (if false && any_prefix c_openingStatements code && negb (has_suffix (lit "{") code) then lit " {" ++ [10] else [10]) = [10]) by reflexivity.
+      destruct (tw_wr_quiet [10] st3 Q3) as [Q4 L4]. pose proof (tw_wr_txt [10] st3 Q3) as T4.
+      exists false. split; [|reflexivity]. split; [split; [exact (proj1 Q4)|rewrite L4, L3; exact (proj2 M1)]|].
+      exists ((if m then close_text (Lo ind) else []) ++ tabs ind ++ code ++ [10]). split.
+      * rewrite T4, T3, T1. cbn [app]. rewrite <- !app_assoc. reflexivity.
+      * assert (Ds : denotes ind false false (tabs ind ++ code ++ [10]) [SStmt code]).
+        { rewrite <- (app_nil_r (tabs ind ++ code ++ [10])). apply d_stmt. constructor. }
+        destruct m; [apply d_close; exact Ds|exact Ds].
+    + destruct Hs as [[Hblock|(Hnop & Helse & Hraw0)] [Hko Hch]].
+      * (* a block, alone or as a link of an if / else chain *)
+        pose proof Hblock as (Hop & Hsuf & Hpre & Hraw). apply (proj1 (dyn_all_eq (c0 :: ch0))) in Hch.
+        cbn [is_block] in *. rewrite Hop in *. cbn [andb] in *.
+        assert (Hne : c0 :: ch0 <> []) by discriminate.
+        generalize dependent (c0 :: ch0). intros ch IH Hko Hch Hne. clear c0 ch0.
+        {
     set (nc := any_prefix c_elseStatements (t_lit origin)) in *.
-    rewrite Hop, Hsuf, Hpre. cbn [andb negb]. rewrite !Bool.andb_true_r.
-    destruct ch as [|c0 ch0]; [congruence|]. cbn [andb negb].
-    set (code := go_trim_space (t_lit origin)) in *.
-    set (m0 := if nc then false else m) in *.
-    destruct (tw_wri_run ind m0 (if nc then lit "} " else []) st H) as [M1 T1].
-    set (st1 := tw_wri (if nc then lit "} " else []) st) in *.
-    assert (Q1 : quiet st1) by (destruct M1 as [A B]; split; [exact A|rewrite B; reflexivity]).
-    destruct (tw_write_add_quiet sm code origin st1 Q1) as [Q3 L3]. pose proof (tw_write_add_txt sm code origin st1 Q1) as T3.
-    set (st3 := tw_write_add sm code origin st1) in *.
-    destruct (tw_wr_quiet (lit " {" ++ [10]) st3 Q3) as [Q4 L4]. pose proof (tw_wr_txt (lit " {" ++ [10]) st3 Q3) as T4.
-    set (st4 := tw_wr (lit " {" ++ [10]) st3) in *.
-    assert (E4 : snd st4 = Lc ind) by (rewrite L4, L3; exact (proj2 M1)).
-    assert (Mb : MS (S ind) false (set_local st4 (indent_local (snd st4) 1))).
-    { split; [exact (proj1 Q4)|]. cbn [set_local snd]. rewrite E4. unfold indent_local, Lc, loc_of. cbn [wl_indent wl_static wl_errh wl_unesc]. rewrite Nat.add_1_r. reflexivity. }
-    destruct (kids_run sm (c0 :: ch0) IH Hch Hko (S ind) false _ Mb) as (mb & R5).
-    pose proof (Run_ms (S ind) R5) as [E5 L5]. destruct R5 as [_ (body_code & T5 & D5)].
-    rewrite txt_set_local in T5.
-    set (st5 := emit_list sm (c0 :: ch0) false (set_local st4 (indent_local (snd st4) 1))) in *.
-    assert (Hclose : w_err (fst (tw_close st5)) = None /\ txt (tw_close st5) = txt st5 ++ (if mb then close_text (Lo (S ind)) else [])).
-    { unfold tw_close, close_if_static. rewrite L5. destruct mb; cbn [loc_of Lo Lc wl_static].
-      - destruct (close_string_literal_txt st5 E5) as ([Ec _] & _ & _ & Tc). rewrite L5 in Tc. split; [exact Ec|exact Tc].
-      - split; [exact E5|rewrite app_nil_r; reflexivity]. }
-    destruct Hclose as [E6 T6].
-    set (st6 := set_local (tw_close st5) (snd st4)) in *.
-    assert (M6 : MS ind false st6) by (split; [exact E6|exact E4]).
-    assert (T6' : txt st6 = txt st ++ (if m0 then close_text (Lo ind) else []) ++ chain_head_code ind (negb nc) code body_code mb).
-    { unfold st6. rewrite txt_set_local, T6, T5, T4, T3, T1. unfold chain_head_code. destruct nc; cbn [negb app]; rewrite <- !app_assoc; reflexivity. }
-    (* does the chain go on? *)
-    assert (Hflag : match is_silent (hd_error r) with
-                    | Some next_code => has_prefix (lit "}") next_code = false /\ any_prefix c_elseStatements next_code = ho r
-                    | None => ho r = false
-                    end).
-    { destruct r as [|n' r']; [reflexivity|]. inversion Hr as [|? ? Hn' _]; subst. destruct n' as [k' ch']. cbn [hd_error is_silent ho is_else].
-      destruct k'; try reflexivity. cbn [dyn_node] in Hn'. destruct Hn' as [(_ & _ & _ & Hraw') _]. split; [exact Hraw'|reflexivity]. }
-    destruct (ho r) eqn:Eho.
-    + (* left open for the else that follows *)
-      destruct (is_silent (hd_error r)) as [next_code|]; [|discriminate]. destruct Hflag as [Hc1 Hc2]. rewrite Hc1, Hc2. cbn [andb negb fst snd].
-      exists false. split; [|reflexivity]. split; [exact M6|].
-      exists ((if m0 then close_text (Lo ind) else []) ++ chain_head_code ind (negb nc) code body_code mb). split; [exact T6'|].
-      unfold m0. destruct nc; cbn [negb].
-      * rewrite <- (app_nil_r (chain_head_code _ _ _ _ _)). cbn [app]. apply d_block_cont; [exact D5|constructor].
-      * assert (Db : denotes ind false MP (chain_head_code ind true code body_code mb) [SBlockOpen code (segs_list false (c0 :: ch0))]).
-        { rewrite <- (app_nil_r (chain_head_code _ _ _ _ _)). apply d_block_open; [exact D5|constructor]. }
-        destruct m; [apply d_close; exact Db|exact Db].
-    + (* closed here *)
-      destruct (tw_wri_run ind false (lit "}" ++ [10]) st6 M6) as [M7 T7].
-      assert (Hres : (if negb (has_prefix (lit "}") (match is_silent (hd_error r) with Some c => c | None => [] end)) && negb (match is_silent (hd_error r) with Some c => any_prefix c_elseStatements c | None => false end) then true else true) = true) by (destruct (_ && _); reflexivity).
-      assert (Hout : (match is_silent (hd_error r) with
-                      | Some next_code =>
-                        if negb (has_prefix (lit "}") next_code) && negb (any_prefix c_elseStatements next_code)
-                        then (tw_wri (lit "}" ++ [10]) st6, false) else (st6, any_prefix c_elseStatements next_code)
-                      | None => (tw_wri (lit "}" ++ [10]) st6, false)
-                      end) = (tw_wri (lit "}" ++ [10]) st6, false)).
-      { destruct (is_silent (hd_error r)) as [next_code|]; [|reflexivity]. destruct Hflag as [Hc1 Hc2]. rewrite Hc1, Hc2. reflexivity. }
-      rewrite Hout. cbn [fst snd]. exists false. split; [|reflexivity]. split; [exact M7|].
-      exists ((if m0 then close_text (Lo ind) else []) ++ chain_head_code ind (negb nc) code body_code mb ++ tabs ind ++ lit "}" ++ [10]). split.
-      * rewrite T7, T6'. cbn [app]. rewrite <- !app_assoc. reflexivity.
-      * unfold m0. destruct nc; cbn [negb].
-        -- cbn [app]. rewrite <- (app_nil_r (chain_head_code ind false code body_code mb ++ tabs ind ++ lit "}" ++ [10])).
-           apply d_block_last; [exact D5|constructor].
-        -- assert (Db : denotes ind false false (chain_head_code ind true code body_code mb ++ tabs ind ++ lit "}" ++ [10]) [SBlock code (segs_list false (c0 :: ch0))]).
-           { rewrite block_code_chain. rewrite <- (app_nil_r (block_code _ _ _ _)). apply d_block; [exact D5|constructor]. }
-           destruct m; [apply d_close; exact Db|exact Db].
+            rewrite Hsuf, Hpre. cbn [andb negb]. rewrite !Bool.andb_true_r.
+        destruct ch as [|c0 ch0]; [congruence|]. cbn [andb negb].
+        set (code := go_trim_space (t_lit origin)) in *.
+        set (m0 := if nc then false else m) in *.
+        destruct (tw_wri_run ind m0 (if nc then lit "} " else []) st H) as [M1 T1].
+        set (st1 := tw_wri (if nc then lit "} " else []) st) in *.
+        assert (Q1 : quiet st1) by (destruct M1 as [A B]; split; [exact A|rewrite B; reflexivity]).
+        destruct (tw_write_add_quiet sm code origin st1 Q1) as [Q3 L3]. pose proof (tw_write_add_txt sm code origin st1 Q1) as T3.
+        set (st3 := tw_write_add sm code origin st1) in *.
+        destruct (tw_wr_quiet (lit " {" ++ [10]) st3 Q3) as [Q4 L4]. pose proof (tw_wr_txt (lit " {" ++ [10]) st3 Q3) as T4.
+        set (st4 := tw_wr (lit " {" ++ [10]) st3) in *.
+        assert (E4 : snd st4 = Lc ind) by (rewrite L4, L3; exact (proj2 M1)).
+        assert (Mb : MS (S ind) false (set_local st4 (indent_local (snd st4) 1))).
+        { split; [exact (proj1 Q4)|]. cbn [set_local snd]. rewrite E4. unfold indent_local, Lc, loc_of. cbn [wl_indent wl_static wl_errh wl_unesc]. rewrite Nat.add_1_r. reflexivity. }
+        destruct (kids_run sm (c0 :: ch0) IH Hch Hko (S ind) false _ Mb) as (mb & R5).
+        pose proof (Run_ms (S ind) R5) as [E5 L5]. destruct R5 as [_ (body_code & T5 & D5)].
+        rewrite txt_set_local in T5.
+        set (st5 := emit_list sm (c0 :: ch0) false (set_local st4 (indent_local (snd st4) 1))) in *.
+        assert (Hclose : w_err (fst (tw_close st5)) = None /\ txt (tw_close st5) = txt st5 ++ (if mb then close_text (Lo (S ind)) else [])).
+        { unfold tw_close, close_if_static. rewrite L5. destruct mb; cbn [loc_of Lo Lc wl_static].
+          - destruct (close_string_literal_txt st5 E5) as ([Ec _] & _ & _ & Tc). rewrite L5 in Tc. split; [exact Ec|exact Tc].
+          - split; [exact E5|rewrite app_nil_r; reflexivity]. }
+        destruct Hclose as [E6 T6].
+        set (st6 := set_local (tw_close st5) (snd st4)) in *.
+        assert (M6 : MS ind false st6) by (split; [exact E6|exact E4]).
+        assert (T6' : txt st6 = txt st ++ (if m0 then close_text (Lo ind) else []) ++ chain_head_code ind (negb nc) code body_code mb).
+        { unfold st6. rewrite txt_set_local, T6, T5, T4, T3, T1. unfold chain_head_code. destruct nc; cbn [negb app]; rewrite <- !app_assoc; reflexivity. }
+        (* does the chain go on? *)
+        assert (Hflag : match is_silent (hd_error r) with
+                        | Some next_code => has_prefix (lit "}") next_code = false /\ any_prefix c_elseStatements next_code = ho r
+                        | None => ho r = false
+                        end).
+        { destruct r as [|n' r']; [reflexivity|]. inversion Hr as [|? ? Hn' _]; subst. destruct n' as [k' ch']. cbn [hd_error is_silent ho is_else].
+          destruct k'; try reflexivity. split; [exact (dyn_silent_raw _ _ _ _ Hn')|reflexivity]. }
+        destruct (ho r) eqn:Eho.
+        + (* left open for the else that follows *)
+          destruct (is_silent (hd_error r)) as [next_code|]; [|discriminate]. destruct Hflag as [Hc1 Hc2]. rewrite Hc1, Hc2. cbn [andb negb fst snd].
+          exists false. split; [|reflexivity]. split; [exact M6|].
+          exists ((if m0 then close_text (Lo ind) else []) ++ chain_head_code ind (negb nc) code body_code mb). split; [exact T6'|].
+          unfold m0. destruct nc; cbn [negb].
+          * rewrite <- (app_nil_r (chain_head_code _ _ _ _ _)). cbn [app]. apply d_block_cont; [exact D5|constructor].
+          * assert (Db : denotes ind false MP (chain_head_code ind true code body_code mb) [SBlockOpen code (segs_list false (c0 :: ch0))]).
+            { rewrite <- (app_nil_r (chain_head_code _ _ _ _ _)). apply d_block_open; [exact D5|constructor]. }
+            destruct m; [apply d_close; exact Db|exact Db].
+        + (* closed here *)
+          destruct (tw_wri_run ind false (lit "}" ++ [10]) st6 M6) as [M7 T7].
+          assert (Hres : (if negb (has_prefix (lit "}") (match is_silent (hd_error r) with Some c => c | None => [] end)) && negb (match is_silent (hd_error r) with Some c => any_prefix c_elseStatements c | None => false end) then true else true) = true) by (destruct (_ && _); reflexivity).
+          assert (Hout : (match is_silent (hd_error r) with
+                          | Some next_code =>
+                            if negb (has_prefix (lit "}") next_code) && negb (any_prefix c_elseStatements next_code)
+                            then (tw_wri (lit "}" ++ [10]) st6, false) else (st6, any_prefix c_elseStatements next_code)
+                          | None => (tw_wri (lit "}" ++ [10]) st6, false)
+                          end) = (tw_wri (lit "}" ++ [10]) st6, false)).
+          { destruct (is_silent (hd_error r)) as [next_code|]; [|reflexivity]. destruct Hflag as [Hc1 Hc2]. rewrite Hc1, Hc2. reflexivity. }
+          rewrite Hout. cbn [fst snd]. exists false. split; [|reflexivity]. split; [exact M7|].
+          exists ((if m0 then close_text (Lo ind) else []) ++ chain_head_code ind (negb nc) code body_code mb ++ tabs ind ++ lit "}" ++ [10]). split.
+          * rewrite T7, T6'. cbn [app]. rewrite <- !app_assoc. reflexivity.
+          * unfold m0. destruct nc; cbn [negb].
+            -- cbn [app]. rewrite <- (app_nil_r (chain_head_code ind false code body_code mb ++ tabs ind ++ lit "}" ++ [10])).
+               apply d_block_last; [exact D5|constructor].
+            -- assert (Db : denotes ind false false (chain_head_code ind true code body_code mb ++ tabs ind ++ lit "}" ++ [10]) [SBlock code (segs_list false (c0 :: ch0))]).
+               { rewrite block_code_chain. rewrite <- (app_nil_r (block_code _ _ _ _)). apply d_block; [exact D5|constructor]. }
+               destruct m; [apply d_close; exact Db|exact Db].
+        }
+      * (* a line of Go with nested content: `- case x:` *)
+        apply (proj1 (dyn_all_eq (c0 :: ch0))) in Hch. cbn [is_block] in *. rewrite Hnop in *. rewrite Helse in *. cbn [andb negb] in *.
+        assert (Hho : ho r = false) by (destruct (ho r); [specialize (Hadj1 eq_refl); discriminate|reflexivity]).
+        set (code := go_trim_space (t_lit origin)) in *.
+        destruct (tw_wri_run ind m [] st H) as [M1 T1]. set (st1 := tw_wri [] st) in *.
+        assert (Q1 : quiet st1) by (destruct M1 as [A B]; split; [exact A|rewrite B; reflexivity]).
+        destruct (tw_write_add_quiet sm code origin st1 Q1) as [Q3 L3]. pose proof (tw_write_add_txt sm code origin st1 Q1) as T3.
+        set (st3 := tw_write_add sm code origin st1) in *.
+        destruct (tw_wr_quiet [10] st3 Q3) as [Q4 L4]. pose proof (tw_wr_txt [10] st3 Q3) as T4.
+        set (st4 := tw_wr [10] st3) in *.
+        assert (E4 : snd st4 = Lc ind) by (rewrite L4, L3; exact (proj2 M1)).
+        assert (Mb : MS (S ind) false (set_local st4 (indent_local (snd st4) 1))).
+        { split; [exact (proj1 Q4)|]. cbn [set_local snd]. rewrite E4. unfold indent_local, Lc, loc_of. cbn [wl_indent wl_static wl_errh wl_unesc]. rewrite Nat.add_1_r. reflexivity. }
+        destruct (kids_run sm (c0 :: ch0) IH Hch Hko (S ind) false _ Mb) as (mb & R5).
+        pose proof (Run_ms (S ind) R5) as [E5 L5]. destruct R5 as [_ (body_code & T5 & D5)].
+        rewrite txt_set_local in T5.
+        set (st5 := emit_list sm (c0 :: ch0) false (set_local st4 (indent_local (snd st4) 1))) in *.
+        assert (Hclose : w_err (fst (tw_close st5)) = None /\ txt (tw_close st5) = txt st5 ++ (if mb then close_text (Lo (S ind)) else [])).
+        { unfold tw_close, close_if_static. rewrite L5. destruct mb; cbn [loc_of Lo Lc wl_static].
+          - destruct (close_string_literal_txt st5 E5) as ([Ec _] & _ & _ & Tc). rewrite L5 in Tc. split; [exact Ec|exact Tc].
+          - split; [exact E5|rewrite app_nil_r; reflexivity]. }
+        destruct Hclose as [E6 T6].
+        set (st6 := set_local (tw_close st5) (snd st4)) in *.
+        assert (Hout : (match is_silent (hd_error r) with
+                        | Some next_code => (st6, any_prefix c_elseStatements next_code)
+                        | None => (st6, false)
+                        end) = (st6, false)).
+        { destruct r as [|n' r']; [reflexivity|]. cbn [hd_error]. destruct n' as [k' ch']. destruct k'; try reflexivity.
+          cbn [is_silent]. cbn [ho is_else] in Hho. rewrite Hho. reflexivity. }
+        rewrite Hout. cbn [fst snd]. exists false. split; [|reflexivity]. split; [split; [exact E6|exact E4]|].
+        exists ((if m then close_text (Lo ind) else []) ++ tabs ind ++ code ++ [10] ++ body_code ++ (if mb then close_text (Lo (S ind)) else [])). split.
+        -- unfold st6. rewrite txt_set_local, T6, T5, T4, T3, T1. cbn [app]. rewrite <- !app_assoc. reflexivity.
+        -- assert (Dl : denotes ind false false (tabs ind ++ code ++ [10] ++ body_code ++ (if mb then close_text (Lo (S ind)) else [])) [SLine code (segs_list false (c0 :: ch0))]).
+           { rewrite <- (app_nil_r (tabs ind ++ code ++ [10] ++ body_code ++ _)). apply d_line; [exact D5|constructor]. }
+           destruct m; [apply d_close; exact Dl|exact Dl].
   - (* script *)
     cbn [fst snd]. exists false. split; [apply dyn_run; exact H|reflexivity].
   - (* = @render *)
